@@ -14,17 +14,18 @@ open ALV ALV.Gen.Windows
 /-! ### generated formula = documented closed form (sample level, all real arguments) -/
 
 theorem genFormula_eq_sample (k : Kind) (a N n : ℝ) : genFormula k N n a = sample k a N n := by
+  -- `ring_nf` also normalises inside `cos`/`sin`/`|·|`, so commutative re-orderings of a formula in the
+  -- repo (e.g. `2 * n * pi / size`) do not break this obligation
   cases k
-  · simp [genFormula, hann, sample]; ring
-  · simp [genFormula, hamming, sample]
-  · simp [genFormula, rect, sample]
-  · simp [genFormula, bartlett, sample]; ring
+  · simp [genFormula, hann, sample] <;> ring_nf
+  · simp [genFormula, hamming, sample] <;> ring_nf
+  · simp [genFormula, rect, sample] <;> ring_nf
+  · simp [genFormula, bartlett, sample] <;> ring_nf
   · simp only [genFormula, triangular, sample, TrigField.real_ofInt, TrigField.real_abs, Int.cast_ofNat, Int.cast_one]
-    rw [div_div_eq_mul_div]; ring
-  · simp [genFormula, blackman, sample]; ring
-  · -- robust against a re-association of the argument, e.g. `pi * (n / size)`
-    simp only [genFormula, Gen.Windows.cos, sample, TrigField.real_pi, TrigField.real_sin, TrigField.real_pow] <;>
-      first | rfl | (congr 2; ring)
+    rw [div_div_eq_mul_div]; ring_nf
+  · simp [genFormula, blackman, sample] <;> ring_nf
+  · simp only [genFormula, Gen.Windows.cos, sample, TrigField.real_pi, TrigField.real_sin, TrigField.real_pow] <;>
+      ring_nf
 
 /-! ### symmetry of the closed forms about the middle of the span -/
 
